@@ -92,3 +92,31 @@ add("C01", "exploration",
 text("C01",
      "seeded exploration of counterfeit counterparts x handshake mode (discoverable / hidden) x direction x verification policy (client: store+name, store, skip; server: CA store, authorized keys, both, skip) x benign network reordering/duplication, several clients concurrently; certificates are issued inside the simulation so expiry is reached by letting simulated time pass; oracle: client Handshake()==nil only for an authentic server; a discoverable server offers to Accept, and any server delivers data through Handle.ReadMsg, only for an authentic client",
      TB, "deterministic simulation with fault injection (counterfeit-peer search against a construction-based ground truth)", "DESIGN.md 4 C01")
+
+add("C14", "exploration",
+    [{"name": "replay-window", "quick_s": 25, "thorough_s": 600}, {"name": "replay-insitu", "quick_s": 25, "thorough_s": 300}],
+    real=["transport.SlidingWindow (Check/Mark)", "transport session receive path (check before decrypt, mark after successful open) in the in-situ scenario"],
+    stub=["component scenario: everything but the SlidingWindow (a counting sender and a simulated link produce the arrival history)"],
+    rule=("component scenario: one run = one arrival history of 2e3..2e5 counters produced by a simulated link (loss, duplication, reordering depth tuned to 64/448/512 boundaries, late arrivals, forward jumps up to 2^40, "
+          "optionally near 2^62); every arrival is one oracle obligation (Check compared with the set model, Mark when accepted). In-situ scenario: one run = one real session with 200..1700 messages under reorder/dup/delay/late-replay faults and forged packets "
+          "carrying the counters the client is about to use. Non-trivial = at least one duplicate/late/jump/forged event fired and obligations were evaluated; distinct = distinct event-log hash."))
+text("C14",
+     "seeded histories against a set-based reference model whose window size (448) is taken from the property statement: the real SlidingWindow is driven operation by operation (Check, then Mark when accepted) and must agree with the model on every arrival; in situ, with reorder/dup/delay faults only, the number and identity of messages delivered to the application must equal the model's accepted deliveries and a forged packet with a fresh counter must not consume that counter",
+     TB, "deterministic simulation with fault injection (component simulation against an executable set model + in-situ refinement check)", "DESIGN.md 4 C14")
+
+add("C15", "exploration",
+    [{"name": "roaming", "quick_s": 35, "thorough_s": 900}],
+    real=["transport (Server/Client handleSessionMessage address update, Handle.send destination)", "transport.SlidingWindow", "kravatte SANSE"])
+text("C15",
+     "step-mode simulation (every delivery followed by quiescence) of an established session whose client or server address changes at drawn instants while an attacker at other addresses sends forged packets with copied headers, bit-flipped copies and verbatim replays of genuine packets; reference model: per endpoint a peer variable that moves to the source address of a delivery exactly when that delivery is an unmodified copy of a real transmission of the real peer for this session AND the C14 set model accepts its counter; oracle: every datagram an endpoint emits for the session is addressed to the model's peer; liveness: the roaming endpoint keeps its session (probe both ways) whenever one side still knows the other's current address",
+     TB + "; a transmission drained in the very step in which the model moved may still carry the previous peer (emitted just before the delivery was processed)",
+     "deterministic simulation with fault injection (step-mode refinement against a peer-address model)", "DESIGN.md 4 C15")
+
+add("C19", "exploration",
+    [{"name": "cookie-stateless", "quick_s": 30, "thorough_s": 600}, {"name": "hidden-silence", "quick_s": 25, "thorough_s": 600}],
+    real=["transport.Server (ClientHello / ClientAck / hidden request paths, cookie seal/open, cookie key rotation, handshake and session tables)", "transport.Client (as traffic source)", "kravatte", "keys"],
+    stub=["the attacker's ClientHello/ClientAck are produced by small protocol-following adversary functions built from the package's own message writers (hooks/transport/verif_export.go)"])
+text("C19",
+     "step-mode simulation: (discoverable) floods of valid ClientHellos from many addresses - tables and goroutine count must not grow after any of them; ClientAcks that are cryptographically well-formed for the transcript the server will rebuild but carry a cookie minted for another IP, another port, another client KEM key, before a cookie-key rotation (clock advanced past the 2-minute ticker), by a previous server instance (restart) or with altered bytes - a ServerAuth is attributed to the delivery that caused it and must only follow a cookie this instance minted in the current key epoch for exactly that source address and client key (the harness saw every ServerHello leave); a control acknowledgement (same key, same address) must be answered, which validates the adversary. (hidden) every arrival is classified by construction as fresh genuine request or other (discoverable messages, wrong KEM key, flipped/truncated/extended genuine requests, late replays, junk, unknown-session packets, fake requests); any datagram the server emits is attributed to the preceding delivery and must answer a fresh genuine request",
+     TB + "; replays inside the freshness window and deliveries 4..7 s old are not judged (1-second timestamp granularity)",
+     "deterministic simulation with fault injection (step-mode attribution of server emissions, construction-based ground truth)", "DESIGN.md 4 C19")
